@@ -493,9 +493,23 @@ func (c *Ctx) classifierBound(fn *ssa.Function) int64 {
 	best := int64(-1)
 	ec := &ssau.ExitClassifier{Fn: fn, Idx: 0, BoolSuccess: true}
 	for _, ret := range ec.SuccessExits(ssau.NewCut()) {
-		b := lenLowerBound(fn, fn.Params[0], ret)
-		if best < 0 || b < best {
-			best = b
+		// a verdict joined from several paths (a && b && c): only the paths that can deliver true count
+		ats := []ssa.Instruction{ret}
+		if phi, ok := ret.Results[0].(*ssa.Phi); ok && phi.Block() == ret.Block() {
+			ats = nil
+			for k, e := range phi.Edges {
+				if kc, ok := e.(*ssa.Const); ok && kc.Value != nil && kc.Value.String() == "false" {
+					continue
+				}
+				pb := phi.Block().Preds[k]
+				ats = append(ats, pb.Instrs[len(pb.Instrs)-1])
+			}
+		}
+		for _, at := range ats {
+			b := lenLowerBound(fn, fn.Params[0], at)
+			if best < 0 || b < best {
+				best = b
+			}
 		}
 	}
 	if best < 0 {
